@@ -331,12 +331,13 @@ class BaseClient:
                 if ch == '"':
                     seq_quotes += 1
                 else:
-                    if seq_quotes == 1:
-                        break
-                    elif seq_quotes == 2:
+                    directory += '"' * (seq_quotes // 2)
+                    if seq_quotes % 2 == 1:
                         seq_quotes = 0
-                        directory += '"'
+                        break
+                    seq_quotes = 0
                     directory += ch
+        directory += '"' * (seq_quotes // 2)
         return pathlib.PurePosixPath(directory)
 
     @staticmethod
